@@ -147,20 +147,25 @@ def make_fault_verifier(fail_at):
     from fcp.error import error
 
     class FV(Verifier):
+        """Counts every check evaluation and fails the fail_at-th.  The counters live in one dict so that a
+        shallow copy of the verifier (GeneratorManager works on a per-call copy) keeps counting in the same place."""
+
         def __init__(self):
             super().__init__()
-            self.evals = 0
+            self.shared = {"evals": 0, "fired": None}
             self.fail_at = fail_at
-            self.fired = None
+
+        evals = property(lambda self: self.shared["evals"])
+        fired = property(lambda self: self.shared["fired"])
 
         def register(self, function, category=None):
-            outer = self
+            shared, fail = self.shared, self.fail_at
 
             def wrapped(a, b, node):
-                k = outer.evals
-                outer.evals += 1
-                if outer.fail_at is not None and k == outer.fail_at:
-                    outer.fired = (getattr(function, "__name__", "?"), category)
+                k = shared["evals"]
+                shared["evals"] += 1
+                if fail is not None and k == fail:
+                    shared["fired"] = (getattr(function, "__name__", "?"), category)
                     return error("injected fault at evaluation %d" % k)
                 return function(a, b, node)
 
@@ -395,9 +400,9 @@ def run_histories(S, tier):
                 continue
             g, s = hist[-1]
             S.add("outcomes", ("hist", s, o["verdict"].split(":")[0]))
-            rejected = s == "bad" or (s == "dupid" and (g == "dbc" or any(h[0] == "dbc" for h in hist[:-1])))
+            rejected = s == "bad" or (s == "dupid" and g == "dbc")
             if s == "dupid" and not rejected:
-                # duplicate CAN ids are only a DBC plug-in rule: before any dbc call on this manager nop accepts it
+                # duplicate CAN ids are only a DBC plug-in rule: another generator accepts the schema, whatever this manager generated before
                 if o["verdict"] != "ok":
                     S.violation("C10.accept", "C10.accept/valid-schema-not-generated/%s/history:%s" % (g, o["verdict"]), inp, expected="ok", actual=o)
                 continue
@@ -417,7 +422,7 @@ def run_histories(S, tier):
 
 def run_cli(S, tier):
     for gen_name in ("dbc", "can_c"):
-        for sname, text, reject in (("can1", GOOD["can1"], False), ("dup-field-middle", BAD["dup-field-middle"], True), ("plugin", list(BAD_PLUGIN[gen_name].values())[0], True)):
+        for sname, text, reject in (("can1", GOOD["can1"], False), ("dup-field-middle", BAD["dup-field-middle"], True), ("plugin", list(BAD_PLUGIN[gen_name].values())[0], True), ("syntax", 'version: "3"\nstruct A { x @0 u8, }\n', True)):
             root = tempfile.mkdtemp(prefix="fcpmc-c10c-")
             try:
                 out = make_dir_state(root, "unrelated", [])
@@ -434,6 +439,11 @@ def run_cli(S, tier):
                 S.add("outcomes", ("cli", reject, reported))
                 if reject:
                     judge_reject(S, inp, gen_name, before, out, "err" if reported else "ok", (p.stdout + p.stderr)[-300:], "cli:" + sname)
+                    if p.returncode == 0:
+                        # what a Makefile or CI step sees of 'reports an error' is the exit status
+                        S.violation("C10.gate", "C10.gate/rejection-with-exit-status-0/%s" % gen_name, inp, expected="non-zero exit status", actual={"returncode": 0, "stdout_tail": p.stdout[-200:]})
+                elif p.returncode != 0:
+                    S.violation("C10.accept", "C10.accept/valid-schema-exit-status/%s" % gen_name, inp, expected="exit status 0", actual={"returncode": p.returncode, "tail": (p.stdout + p.stderr)[-300:]})
                 else:
                     judge_accept(S, inp, gen_name, text, before, out, root, "ok" if not reported else "err", (p.stdout + p.stderr)[-300:], "cli")
             finally:
